@@ -347,6 +347,71 @@ theorem wrong_password_never_completes_other_partial (pw : Option Bytes) (enc dd
   · cases h
   · cases h
 
+/-! ### Every method (the decoder is a parameter) -/
+
+/-- For a Stored entry the decoder is the identity: `readEntry` is `readStoredEntry`. -/
+theorem readEntry_stored (pw : Option Bytes) (enc dd : Bool) (crc : UInt32) (t : UInt16) (raw : Bytes) :
+    readEntry Out.ok pw enc dd crc t raw = readStoredEntry pw enc dd crc t raw := by
+  unfold readEntry readStoredEntry
+  cases openEntry pw enc dd crc t raw with
+  | ok o => cases o <;> rfl
+  | err e => rfl
+  | panic s => rfl
+
+/-- **Right password, every method**: the writer buffers the compressor's output `comp`; if the
+decoder maps `comp` back to `data` (codec round trip: external code, hypothesis) and the declared CRC
+is `data`'s, then what the writer stored opens with the password and the complete read returns exactly
+`data` — for every password, compressed payload, write pattern and DOS time. -/
+theorem read_right_password_any_method (decode : Bytes → Out Bytes) (pw : Bytes) (writes : List Bytes)
+    (data : Bytes) (t : UInt16) (hd : decode writes.flatten = .ok data) :
+    ∃ stored, writeEntry pw writes (Crc32.crc32 data) = .ok stored ∧
+      readEntry decode (some pw) true false (Crc32.crc32 data) t stored = .ok (some data) := by
+  obtain ⟨stored, r, hw, ho, hr⟩ := open_right_password pw writes (Crc32.crc32 data) t
+  refine ⟨stored, hw, ?_⟩
+  unfold readEntry
+  rw [ho]
+  simp only []
+  rw [hr, hd]
+  simp only [Out.bind_ok]
+  unfold crcCheckedRead
+  rw [if_pos rfl]
+  rfl
+
+/-- Non-vacuity: a toy codec (compress = reverse) through the whole path, password "pw". -/
+example : ∃ stored, writeEntry [0x70, 0x77] [[3, 2], [1]] (Crc32.crc32 [1, 2, 3]) = .ok stored ∧
+    readEntry (fun b => .ok b.reverse) (some [0x70, 0x77]) true false (Crc32.crc32 [1, 2, 3]) 0 stored =
+      .ok (some [1, 2, 3]) :=
+  read_right_password_any_method (fun b => .ok b.reverse) _ _ _ _ rfl
+
+/-- **Any password, every method, any decoder** (`_partial` for the same reason as below): a read
+that completes returned bytes whose CRC-32 is the declared one; a decoder error or a CRC mismatch is
+the read's error; nothing panics unless the decoder does. -/
+theorem completed_read_has_declared_crc_partial (decode : Bytes → Out Bytes) (pw : Option Bytes)
+    (enc dd : Bool) (crc : UInt32) (t : UInt16) (raw d : Bytes)
+    (h : readEntry decode pw enc dd crc t raw = .ok (some d)) : Crc32.crc32 d = crc := by
+  have key : ∀ x : Bytes, (some <$> (decode x >>= crcCheckedRead crc) : Out (Option Bytes)) = .ok (some d) →
+      Crc32.crc32 d = crc := by
+    intro x hx
+    cases hdx : decode x with
+    | ok y =>
+      rw [hdx] at hx
+      simp only [Out.bind_ok] at hx
+      unfold crcCheckedRead at hx
+      by_cases hc : Crc32.crc32 y = crc
+      · rw [if_pos hc] at hx
+        have : y = d := Option.some.inj (Out.ok.inj hx)
+        rw [← this]; exact hc
+      · rw [if_neg hc] at hx; cases hx
+    | err e => rw [hdx] at hx; cases hx
+    | panic s => rw [hdx] at hx; cases hx
+  unfold readEntry at h
+  split at h
+  · exact key _ h
+  · exact key _ h
+  · cases h
+  · cases h
+  · cases h
+
 /-- `validate` has exactly three outcomes: `io:eof`, wrong password, or a valid reader. -/
 theorem validate_outcomes (r : Reader) (v : Validator) :
     r.validate v = .err (.io .unexpectedEof) ∨ r.validate v = .ok none ∨
